@@ -44,7 +44,7 @@ def describe(tier):
         "transition, independent afterwards; every non-null slot resolves to a live traced allocation of its buffer with the recorded member type.",
         bounds=dict(holders=sorted(HOLDERS), depth="4 (3 for two-slot holders)" if tier == "quick" else "5 (4 for two-slot holders)", max_holders=2, sharding="one BFS per (holder, first event); states deduplicated within a shard"),
         assumptions=["object identity in the model = (buffer, offset) of a live traced allocation"],
-        must_fire=["bind-existing", "bind-value", "bind-foreign", "bind-null", "write-ref", "write-orig", "grow", "construct"],
+        must_fire=["bind-existing", "bind-value", "bind-foreign", "bind-null", "write-ref", "write-orig", "grow", "construct", "assign-parent"],
     )
 
 
@@ -164,6 +164,11 @@ def events(w, max_holders=2):
                 evs.append(("bind-null", hi, sp))
             if binding[sp] is not None:
                 evs.append(("write-ref", hi, sp))
+            if len(sp) > 1 and not isinstance(sp[-2], tuple):
+                # the reference lives in a struct embedded by value: assign that whole struct from an instance of the same
+                # class that lives in the same buffer / in the foreign buffer and whose reference is bound
+                for where in ("same", "foreign"):
+                    evs.append(("assign-parent", hi, sp, where))
     for oid in w.pool[:2] + [w.foreign]:
         evs.append(("write-orig", oid))
     evs.append(("grow",))
@@ -206,6 +211,32 @@ def apply(w, ev, n):
         _, hi, sp = ev
         w.slot_write(hi, sp, None)
         w.holders[hi][1][sp] = None
+    elif kind == "assign-parent":
+        _, hi, sp, where = ev
+        pt = w.ht
+        for q in sp[:-1]:
+            pt = dict(pt[1])[q]
+        if where == "same":
+            oid = w.pool[0]
+            tgt = w.objs[oid]["h"]
+            buf = w.B
+        else:
+            oid = None
+            tgt = w.objs[w.foreign]["h"]
+            buf = w.F
+        arg = {}
+        for n_, ft in pt[1]:
+            arg[n_] = tgt if n_ == sp[-1] else xt.gen(ft, "ramp")
+        inst = xt.construct(pt, arg, _buffer=buf)
+        hand.assign(w.ht, w.holders[hi][0], sp[:-1], inst)
+        if where == "same":
+            w.holders[hi][1][sp] = oid
+        else:
+            fo = w.objs[w.foreign]
+            w.nid += 1
+            w.objs[w.nid] = dict(t=fo["t"], h=None, v=fo["v"], buf=w.B, new=True)
+            w.holders[hi][1][sp] = w.nid
+            created.append(w.nid)
     elif kind == "write-ref":
         _, hi, sp = ev
         oid = w.holders[hi][1][sp]
